@@ -65,6 +65,7 @@ type Gen struct {
 	named     map[Sort][]namedTerm
 	namedSeen map[string]bool
 	verWM     map[string]string // heap version -> allocation watermark when it was created
+	UsedLemmas map[string]bool
 	reveals   map[string]bool   // opaque spec functions whose definition is visible in this unit
 	heapProbe *[]string         // when set, heapGet records the heap names it is asked for
 	opaqueDone map[string]bool
@@ -73,7 +74,10 @@ type Gen struct {
 	privAsms  map[string][]asmRec // origin -> assumptions private to that goal
 }
 
-type namedTerm struct{ term, origin string }
+type namedTerm struct {
+	term, origin string
+	signed, ptr  bool
+}
 
 // asmRec: an assumption with its position in program order. An obligation may
 // only use assumptions made before it (otherwise the "assume what was just
@@ -127,7 +131,8 @@ func (g *Gen) addNamed(v *SVal) {
 		return
 	}
 	g.namedSeen[k] = true
-	g.named[srt] = append(g.named[srt], namedTerm{v.Term, g.curOrigin})
+	_, sg := intInfo(v.T)
+	g.named[srt] = append(g.named[srt], namedTerm{v.Term, g.curOrigin, sg && v.K == KInt, v.K == KPtr})
 }
 
 // logRead records an element read for hypothesis instantiation.
@@ -198,7 +203,14 @@ func (g *Gen) instantiate(rounds int) int {
 					}
 				}
 				srt := g.W.scalarSort(qh.types[vi])
+				_, wantSigned := intInfo(qh.types[vi])
+				wantPtr := kindOf(qh.types[vi]) == KPtr
+				wantSigned = wantSigned && kindOf(qh.types[vi]) == KInt
 				for _, t := range g.named[srt] {
+					// same signedness / pointer-ness only: a uint64 counter is not instantiated with loop indices or pointers
+					if t.ptr != wantPtr || t.signed != wantSigned {
+						continue
+					}
 					add(t.term, t.origin)
 				}
 			}
